@@ -36,8 +36,9 @@ def vehicle_move_event(
     :param env: the simulation environment
     :return: the vehicle move report
     """
-    sim_time_start = sim.sim_time - sim.sim_timestep_duration_seconds
-    sim_time_end = sim.sim_time
+    # the state handed in is the one of the running step (its clock has not advanced yet)
+    sim_time_start = sim.sim_time
+    sim_time_end = sim.sim_time + sim.sim_timestep_duration_seconds
     vehicle_id = next_vehicle.id
     vehicle_state = prev_vehicle.vehicle_state.__class__.__name__
     vehicle_memberships = prev_vehicle.membership.to_json()
@@ -106,8 +107,9 @@ def vehicle_charge_event(
             f"Energy type mismatch: vehicle {next_vehicle.id} does not use energy type {charger.energy_type}"
         )
 
-    sim_time_start = next_sim.sim_time - next_sim.sim_timestep_duration_seconds
-    sim_time_end = next_sim.sim_time
+    # the state handed in is the one of the running step (its clock has not advanced yet)
+    sim_time_start = next_sim.sim_time
+    sim_time_end = next_sim.sim_time + next_sim.sim_timestep_duration_seconds
 
     vehicle_id = next_vehicle.id
     station_id = station.id
@@ -166,7 +168,8 @@ def report_pickup_request(
     :return: a pickup request report
     """
 
-    event_sim_time = next_sim.sim_time - next_sim.sim_timestep_duration_seconds
+    # the state handed in is the one of the running step (its clock has not advanced yet)
+    event_sim_time = next_sim.sim_time
 
     geoid = vehicle.geoid
     lat, lon = h3.h3_to_geo(geoid)
